@@ -157,6 +157,34 @@ func init() {
 				mon.Hit("C04", "pipeline-filter-violated", c04Detail(cur, i, r.Command))
 			}
 		}
+		// cached answers: the same query under a run of filter-switch variants on ONE cache, most
+		// permissive first; whatever was cached for another variant, each answer must satisfy ITS switches
+		if len(cur.Results) > 0 && len(prev)%3 == 0 {
+			cdb := database.NewCachedDatabase(cur.DB)
+			variants := []database.SearchOptions{cur.Opts, cur.Opts, cur.Opts, cur.Opts, cur.Opts}
+			variants[0].AllPlatforms, variants[0].NoCrossPlatform, variants[0].PipelineOnly = true, false, false
+			variants[1].AllPlatforms, variants[1].NoCrossPlatform, variants[1].PipelineOnly = false, false, false
+			variants[2].AllPlatforms, variants[2].NoCrossPlatform, variants[2].PipelineOnly = false, true, false
+			variants[3].AllPlatforms, variants[3].NoCrossPlatform, variants[3].PipelineOnly = false, true, true
+			variants[4].AllPlatforms, variants[4].NoCrossPlatform, variants[4].PipelineOnly = true, false, true
+			for _, vo := range variants {
+				rec := &SearchRecord{DB: cur.DB, Query: cur.Query, Opts: vo}
+				rec.Results = cdb.SearchWithOptionsAndCache(cur.Query, vo)
+				for i, r := range rec.Results {
+					if ok, _ := c04Allowed(r.Command, host, vo); !ok {
+						d := c04Detail(rec, i, r.Command)
+						d["path"] = "cached (after more permissive requests for the same query)"
+						mon.Hit("C04", "platform-filter-violated", d)
+					}
+					if vo.PipelineOnly && !c04IsPipeline(r.Command) {
+						d := c04Detail(rec, i, r.Command)
+						d["path"] = "cached"
+						mon.Hit("C04", "pipeline-filter-violated", d)
+					}
+				}
+			}
+			mon.Tag("c04-cached-variants")
+		}
 		// distribution / non-triviality: which path answered, and did the filter have something to exclude
 		disallowed := 0
 		for i := range cur.DB.Commands {
@@ -288,11 +316,11 @@ func genC04(r *Rng, tier string, idx int, args map[string]string) []string {
 		}
 	}
 	queries := []string{
-		Pick(r, dbWords),                                       // lexical
-		dropLetters(r, ms[0]),                                  // answered only by the typo fallback
-		"  " + strings.ToUpper(dropLetters(r, ms[1])) + "\t",   // the same, re-cased and padded
-		ms[2],                                                  // lexical hit on exactly one, platform-bound, entry
-		"show " + ms[3] + " " + Pick(r, wordPool),              // NLP words + marker
+		Pick(r, dbWords),      // lexical
+		dropLetters(r, ms[0]), // answered only by the typo fallback
+		"  " + strings.ToUpper(dropLetters(r, ms[1])) + "\t", // the same, re-cased and padded
+		ms[2], // lexical hit on exactly one, platform-bound, entry
+		"show " + ms[3] + " " + Pick(r, wordPool), // NLP words + marker
 		genQuery(r, dbWords),
 	}
 	var reqs []SearchReq
